@@ -20,6 +20,8 @@ CONSTANTS
   Deviations = {"F12", "F14"}
   MaxApps = 0
   MaxSucc = 2
+  CapX = {}
+  CapY = {}
   Depth = 1000
   BootSize = 0
   WProgress = 60
